@@ -87,6 +87,16 @@ CHECKS: dict[str, dict[str, str]] = {
         "technique": "TLA+ transcription of the legacy/BIP143/BIP341 preimages; TLC model-checks the commitment matrix and validates recorded digests",
         "design_ref": "DESIGN.md section 4 C09",
     },
+    "C12": {
+        "text": ("TLC checks on the BIP341 specification itself that, for every tree shape up to three leaves and the balanced four-leaf shape over "
+                 "two scripts and two keys, every leaf's control block verifies, no leaf verifies with another leaf's path, and the tweaked "
+                 "private key opens the output key; output keys, tweaked private keys and control blocks recorded from taproot.output_pubkey / "
+                 "output_prvkey / input_script_sig (all key spellings, combs to 40 leaves, both arms) and from tr() descriptors are recomputed by "
+                 "TLC; single-bit alterations of control block, script and key, +-32 bytes and foreign paths must not verify, both through "
+                 "check_output_pubkey and through verify_input."),
+        "technique": "TLA+ BIP341 specification model-checked with TLC on small trees; recorded outputs/control blocks and altered proofs validated as traces",
+        "design_ref": "DESIGN.md section 4 C12",
+    },
     "C20": {
         "text": ("TLC model-checks the NonceLife / SignerLife / WalletLedger / MemoCache machines (invariants and action "
                  "properties, exhaustive on small constants); every behaviour TLC enumerates to a depth (plus -simulate "
